@@ -86,10 +86,17 @@ def rule_elision(model, rep):
     unit = model.unit(T)
     for q in ("TOTP.to_dict", "TOTP._to_uri_params"):
         fn = model.func(T, q)
+        seen = set()
         for n in walk_no_nested(fn):
-            if isinstance(n, ast.If) and isinstance(n.test, ast.Compare) and len(n.test.ops) == 1 and isinstance(n.test.ops[0], ast.NotEq) \
+            if isinstance(n, ast.If) and isinstance(n.test, ast.Compare) and len(n.test.ops) == 1 \
                     and isinstance(n.test.left, ast.Attribute) and ast.unparse(n.test.left.value) == "self" and n.test.left.attr in RFC_DEFAULTS:
                 fld = n.test.left.attr
+                seen.add(fld)
+                if not isinstance(n.test.ops[0], ast.NotEq):
+                    rep.violation(R + "-test", site(q), ast.unparse(n.test), f"`{fld}` is written unless it *equals* the default; any other comparison drops legal values that differ from the default",
+                                  witness=f"TOTP(key, {fld}=<a value on the other side of the comparison>).to_dict() omits `{fld}`; the object reloads with the default {RFC_DEFAULTS[fld]!r}")
+                    continue
+                rep.hold(R + "-test", site(q), f"{fld}: elided iff equal")
                 k = model.fold(unit, n.test.comparators[0])
                 cls_default = model.class_const((T, "TOTP"), fld)
                 # the reader's default is the *class attribute* (rebindable through using()), the writer elides a literal
@@ -104,6 +111,8 @@ def rule_elision(model, rep):
                                           f"has {fld} != {k!r}: a different code generator after the round trip")
                 else:
                     rep.hold(R, site(q), f"{fld} compared with {ast.unparse(n.test.comparators[0])}")
+        if seen != set(RFC_DEFAULTS):
+            rep.undecided(R, site(q), f"elision guards found for {sorted(seen)}, expected {sorted(RFC_DEFAULTS)}")
     rep.minimum(R, 6)
 
 
